@@ -8,7 +8,9 @@ ORACLE = "command log vs. file-system log vs. recorded digests: start preconditi
 DESIGN_REF = "DESIGN.md section 7 (C03)"
 RULE = (
     "history scenarios biased to amend-before-read, read-then-amend (late) and fan-in with "
-    "njob >= 2 in most builds; injected fault: the user modifies or deletes an input of a "
+    "njob >= 2 in most builds; amend() calls that mix an ordinary input with a file of a static tree; "
+    "sleeping steps that create a declared output early with provisional content; timing profiles "
+    "(slow hashing, slow launches, slow network); injected fault: the user modifies or deletes an input of a "
     "running step after a seeded delay. Distinct = distinct scenario rendering + fault plan; "
     "non-trivial = at least two commands ran."
 )
